@@ -417,3 +417,19 @@
 (define-fun bool_payload ((v cty.Value) (b Bool)) Bool (and (is_bool_ty (vty v)) (= (inner_v v) (box<bool> b))))
 (define-fun bool_of ((v cty.Value)) Bool (unbox<bool> (inner_v v)))
 (define-fun is_unk_payload ((v cty.Value)) Bool ((_ is box<*cty.unknownType>) (cty.Value.v v)))
+
+; ---- paths (C19) -------------------------------------------------------------------------------
+(define-fun path_at ((p Slice) (j Int)) Any (select (select F.Arr<Any> (Slice.ptr p)) (+ (Slice.off p) j)))
+; raw equality of values: the relation computed by Value.RawEquals (assumed to be a function of its operands)
+(declare-fun raw_eq (cty.Value cty.Value) Bool)
+(define-fun step_eq ((x Any) (y Any)) Bool
+  (or (and ((_ is box<cty.GetAttrStep>) x) ((_ is box<cty.GetAttrStep>) y) (= x y))
+      (and ((_ is box<cty.IndexStep>) x) ((_ is box<cty.IndexStep>) y)
+           (raw_eq (cty.IndexStep.Key (unbox<cty.IndexStep> x)) (cty.IndexStep.Key (unbox<cty.IndexStep> y))))))
+(define-fun paths_eq ((p Slice) (q Slice) (n Int)) Bool
+  (forall ((j Int)) (! (=> (and (trig j) (<= 0 j) (< j n)) (step_eq (path_at p j) (path_at q j))) :pattern ((trig j)))))
+(define-fun step_wf ((x Any)) Bool
+  (or ((_ is box<cty.GetAttrStep>) x)
+      (and ((_ is box<cty.IndexStep>) x) (wf_deep (cty.IndexStep.Key (unbox<cty.IndexStep> x))))))
+(define-fun path_wf ((p Slice) (n Int)) Bool
+  (forall ((j Int)) (! (=> (and (trig j) (<= 0 j) (< j n)) (step_wf (path_at p j))) :pattern ((trig j)))))
